@@ -418,7 +418,27 @@ def r5_exclude_output(ctx, rep):
     rep.ob("find_all_files honours exclude_dir", ok, "files under excluded directories are dropped", py.nloc(faf))
 
 
+def r6_pagetree_lexical(ctx, rep):
+    """PageNode.location = relpath(path.parent, topdir) stays below the page directory only if both sides
+    are the same lexical joins below page_dir: resolving symbolic links on one side lets a linked
+    sub-directory map to a location outside (and hence output outside output_dir)."""
+    py = ctx.py
+    fn = py.func("pagetree.get_page_tree")
+    calls = [c for c in py.walk_calls(fn) if isinstance(c.func, ast.Attribute) and c.func.attr in ("resolve", "absolute")
+             or call_name(c) in ("os.path.realpath", "os.path.abspath")]
+    rep.ob("get_page_tree joins paths lexically (no symlink resolution)", not calls,
+           "topdir and page paths are plain joins below page_dir" if not calls else
+           f"`{ast.unparse(calls[0])[:60]}` resolves symbolic links while walking the page tree: PageNode.location "
+           f"(relpath to the unresolved top directory) of a linked sub-directory becomes '../../x' and its pages are written "
+           f"outside the output directory", py.nloc(calls[0]) if calls else py.nloc(fn))
+    pn = py.func("PageNode.__init__")
+    t = ast.unparse(pn)
+    ok = "self.location = Path(os.path.relpath(path.parent, self.topdir))" in t and "self.topdir = path.parent" in t
+    rep.ob("PageNode.location is relative to the top page directory", ok, "", py.nloc(pn))
+
+
 RULES = [
+    RuleSpec("C19.R6", r6_pagetree_lexical, "page-tree locations are lexical joins below page_dir", floor=2),
     RuleSpec("C19.R1", r1_write_provenance, "every file-system write lands below output_dir/graph_dir", floor=24),
     RuleSpec("C19.R2", r2_reachability, "no mutation before the refusal or outside the write-out phase", floor=10),
     RuleSpec("C19.R3", r3_resolved_paths, "refusal works on symlink-resolved, normalised paths", floor=2),
